@@ -576,3 +576,27 @@ func ProxyReqs() []Req {
 		{Method: "GET", Path: "/x", Headers: [][2]string{{"X-Test", "a"}}, Cancel: 2},
 	}
 }
+
+// Boundary relations between the numeric parameters of a CircuitBreaker policy: window size x
+// permitted half-open calls (0, 1, = window, window+1, 10) x minimum number of calls (0, 1, = window,
+// window+1, 100), then wait / threshold / window type per cycle. CBComboDoc builds combination k.
+const CBCombos = 4 * 5 * 5
+
+func CBComboDoc(k int) map[string]interface{} {
+	w := []int64{1, 2, 3, 10}[k%4]
+	perm := []int64{w, 0, 1, w + 1, 10}[(k/4)%5]
+	min := []int64{0, 1, w, w + 1, 100}[(k/20)%5]
+	c := k / CBCombos
+	doc := map[string]interface{}{"name": "cb1", "kind": "CircuitBreaker",
+		"slidingWindowSize": w, "permittedNumberOfCallsInHalfOpenState": perm, "minimumNumberOfCalls": min,
+		"waitDurationInOpenState": []string{"0s", "1ms", "1m"}[c%3],
+		"failureRateThreshold":    []int64{50, 1, 100}[(c/3)%3],
+		"slidingWindowType":       []string{"COUNT_BASED", "TIME_BASED"}[(c/9)%2],
+	}
+	if (c/18)%2 == 1 {
+		doc["maxWaitDurationInHalfOpenState"] = "1s"
+		doc["slowCallDurationThreshold"] = "1ns"
+		doc["slowCallRateThreshold"] = int64(50)
+	}
+	return doc
+}
